@@ -12,7 +12,8 @@ Decided from the source against ref/pcovr_ref.py:
            every reader (transform, predict, score) uses _get_kernel(X, X_fit_) and,
            iff center, centerer_.transform before projecting; X_fit_ is a copy of
            the training data; _get_kernel forwards kernel, gamma, degree, coef0
-           (or kernel_params for callables);
+           (or kernel_params for callables); centerer_ is a KernelNormalizer with
+           centring and trace scaling switched on;
  NF-SCORE  score = -(Lkpca + Lkrr) with the documented K_VV / K_VN / K_NN blocks
            and, with centring, the test-test block centred by the training means
            of the test-train kernel;
